@@ -55,6 +55,7 @@ type VerifStickyTrace struct {
 	SortUnassigned []VerifTP
 	Picks          []VerifTP
 	Events         int
+	Reverted       bool           // the revert branch of balance() ran (sticky.revert)
 	Other          map[string]int // reports of kinds this shim does not know (scratch instrumentation)
 	Score          []int          // scratch instrumentation: current score, pre-balance score, initializing, performed, fixed
 	Mu             sync.Mutex     // guards the fields above while Plan is still running (watchdog reads)
@@ -113,6 +114,8 @@ func VerifStickyPlanOn(inst *VerifSticky, tr *VerifStickyTrace, members map[stri
 			tr.SortUnassigned = append(tr.SortUnassigned, tpOf(a))
 		case "sticky.pick":
 			tr.Picks = append(tr.Picks, tpOf(a))
+		case "sticky.revert":
+			tr.Reverted = true
 		case "sticky.score":
 			b2i := func(b bool) int {
 				if b {
